@@ -10,6 +10,7 @@
 package kv
 
 import (
+	"sync"
 	"time"
 
 	"github.com/synnaxlabs/alamos"
@@ -59,6 +60,19 @@ type Config struct {
 	// must send a redundant operation for it to stop propagating it.
 	// [Not Required]
 	RecoveryThreshold int
+	// applyMu orders everything that decides by the stored digest whether an operation
+	// received from a peer is applied: the gossip-ingress segment and start-up
+	// recovery. Set by Open.
+	applyMu *sync.Mutex
+}
+
+// lockApply takes applyMu, if there is one, and returns the function that releases it.
+func (cfg Config) lockApply() func() {
+	if cfg.applyMu == nil {
+		return func() {}
+	}
+	cfg.applyMu.Lock()
+	return cfg.applyMu.Unlock
 }
 
 // Override implements config.Config.
